@@ -604,9 +604,13 @@ func genReadEntryPoints(l *loader, repo, out string) {
 	lf.raw("/- top-level statements of the single-board summary / detail functions -/\n")
 	emitSteps(lf, "summaryFns", repSummaryFns, all)
 
-	// bbs.BBoardID.ToRaw: does it compare the client-supplied name with the name of board <bid>?
+	// bbs.BBoardID.ToRaw: where does it compare the client-supplied name with the name of board <bid>, and under which
+	// conditions?  Top-level statements as (kind, text):
+	//   ("call", callee) | ("iferr", "") | ("namecheck", conditions enclosing the comparison joined by " && ")
+	//   | ("if", cond) any other if | ("return", results) | ("stmt", gotype)
 	pb := l.load("bbs")
-	checks := false
+	var toRaw [][2]string
+	found := false
 	for _, f := range pb.Syntax {
 		for _, d := range f.Decls {
 			fd, ok := d.(*ast.FuncDecl)
@@ -616,38 +620,112 @@ func genReadEntryPoints(l *loader, repo, out string) {
 			if types.ExprString(fd.Recv.List[0].Type) != "BBoardID" {
 				continue
 			}
-			// a top-level `if ... { if types.Cstrcmp(<x>.Brdname[:], <y>) != 0 { return ..., Err } }` fed by cache.GetBCache(bid)
-			sawGet := false
-			ast.Inspect(fd.Body, func(n ast.Node) bool {
-				switch x := n.(type) {
-				case *ast.CallExpr:
-					if repCallee(x) == "cache.GetBCache" {
-						sawGet = true
-					}
+			found = true
+			// isNameCmp: if types.Cstrcmp(<x>.Brdname[:], <y>) != 0 { return ..., <non-nil> }
+			isNameCmp := func(x *ast.IfStmt) bool {
+				b, ok := ast.Unparen(x.Cond).(*ast.BinaryExpr)
+				if !ok || b.Op != token.NEQ || x.Init != nil {
+					return false
+				}
+				call, ok := ast.Unparen(b.X).(*ast.CallExpr)
+				if !ok || repCallee(call) != "types.Cstrcmp" || len(call.Args) != 2 {
+					return false
+				}
+				if z, ok := ast.Unparen(b.Y).(*ast.BasicLit); !ok || z.Value != "0" {
+					return false
+				}
+				if !isSel(sliceBase(call.Args[0]), "Brdname") && !isSel(sliceBase(call.Args[1]), "Brdname") {
+					return false
+				}
+				if len(x.Body.List) != 1 {
+					return false
+				}
+				r, ok := x.Body.List[0].(*ast.ReturnStmt)
+				return ok && len(r.Results) > 0 && types.ExprString(r.Results[len(r.Results)-1]) != "nil"
+			}
+			// conditions enclosing the comparison inside a statement (nil: no comparison inside)
+			var find func(st ast.Stmt, conds []string) ([]string, bool)
+			find = func(st ast.Stmt, conds []string) ([]string, bool) {
+				switch x := st.(type) {
 				case *ast.IfStmt:
-					b, ok := ast.Unparen(x.Cond).(*ast.BinaryExpr)
-					if !ok || b.Op != token.NEQ {
-						return true
+					if isNameCmp(x) {
+						return conds, true
 					}
-					call, ok := ast.Unparen(b.X).(*ast.CallExpr)
-					if !ok || repCallee(call) != "types.Cstrcmp" || len(call.Args) != 2 {
-						return true
+					inner := append(append([]string{}, conds...), types.ExprString(x.Cond))
+					for _, b := range x.Body.List {
+						if c, ok := find(b, inner); ok {
+							return c, true
+						}
 					}
-					if !isSel(sliceBase(call.Args[0]), "Brdname") && !isSel(sliceBase(call.Args[1]), "Brdname") {
-						return true
+					if x.Else != nil {
+						if c, ok := find(x.Else, append(append([]string{}, conds...), "!("+types.ExprString(x.Cond)+")")); ok {
+							return c, true
+						}
 					}
-					if len(x.Body.List) == 1 {
-						if r, ok := x.Body.List[0].(*ast.ReturnStmt); ok && len(r.Results) > 0 &&
-							types.ExprString(r.Results[len(r.Results)-1]) != "nil" && sawGet {
-							checks = true
+				case *ast.BlockStmt:
+					for _, b := range x.List {
+						if c, ok := find(b, conds); ok {
+							return c, true
 						}
 					}
 				}
-				return true
-			})
+				return nil, false
+			}
+			for _, st := range fd.Body.List {
+				if conds, ok := find(st, nil); ok {
+					// the header compared must come from cache.GetBCache inside the same statement (or the comparison is top-level)
+					sawGet := false
+					ast.Inspect(st, func(n ast.Node) bool {
+						if c, ok := n.(*ast.CallExpr); ok && repCallee(c) == "cache.GetBCache" {
+							sawGet = true
+						}
+						return true
+					})
+					if !sawGet {
+						conds = append(conds, "<no GetBCache>")
+					}
+					toRaw = append(toRaw, [2]string{"namecheck", strings.Join(conds, " && ")})
+					continue
+				}
+				switch x := st.(type) {
+				case *ast.AssignStmt:
+					if len(x.Rhs) == 1 && repCallee(x.Rhs[0]) != "" {
+						toRaw = append(toRaw, [2]string{"call", repCallee(x.Rhs[0])})
+					} else {
+						toRaw = append(toRaw, [2]string{"stmt", "AssignStmt"})
+					}
+				case *ast.IfStmt:
+					b, ok := ast.Unparen(x.Cond).(*ast.BinaryExpr)
+					if ok && b.Op == token.NEQ && types.ExprString(b.X) == "err" && types.ExprString(b.Y) == "nil" && x.Else == nil && len(x.Body.List) == 1 {
+						if r, ok := x.Body.List[0].(*ast.ReturnStmt); ok && len(r.Results) > 0 && types.ExprString(r.Results[len(r.Results)-1]) != "nil" {
+							toRaw = append(toRaw, [2]string{"iferr", ""})
+							continue
+						}
+					}
+					toRaw = append(toRaw, [2]string{"if", types.ExprString(x.Cond)})
+				case *ast.ReturnStmt:
+					var rs []string
+					for _, e := range x.Results {
+						rs = append(rs, types.ExprString(e))
+					}
+					toRaw = append(toRaw, [2]string{"return", strings.Join(rs, ",")})
+				default:
+					toRaw = append(toRaw, [2]string{"stmt", fmt.Sprintf("%T", st)})
+				}
+			}
 		}
 	}
-	lf.raw("/- bbs.BBoardID.ToRaw refuses a name that is not the name of the board its number designates -/\n")
-	fmt.Fprintf(&lf.b, "def bboardIDChecksName : Bool := %v\n", checks)
+	if !found {
+		fatal("bbs: no method BBoardID.ToRaw")
+	}
+	lf.raw("/- top-level statements of bbs.BBoardID.ToRaw; \"namecheck\" = the statement that refuses a name which is not the name of\n   board <bid>, with the conditions enclosing that comparison -/\n")
+	lf.raw("def bboardIDToRaw : List (String × String) := [")
+	for i, e := range toRaw {
+		if i > 0 {
+			lf.raw(",")
+		}
+		fmt.Fprintf(&lf.b, "\n  (%s, %s)", leanStr(e[0]), leanStr(e[1]))
+	}
+	lf.raw("]\n")
 	lf.write(out)
 }
